@@ -28,6 +28,11 @@ type TFOp struct {
 	Val     string `json:"val,omitempty"`
 	Fin     string `json:"fin,omitempty"`
 	SleepMs int    `json:"sleep_ms,omitempty"`
+	// After makes the actor react to a commit instead of sleeping: the operation is issued as soon as the named commit on
+	// the resource with this id has happened (out-td: output marked tearing-down, out-created, out-destroyed, in-td: input
+	// marked tearing-down, in-released: the transform controller's finalizer left the input). Faults placed right after the
+	// commit that opens a window, not at a random time.
+	After string `json:"after,omitempty"`
 }
 
 // TFCase is a run of the generic transform / cleanup controllers (C06, C07).
@@ -73,7 +78,35 @@ type tfWorld struct {
 	finRemCalls    int
 	lastFaultStep  int64
 	faultsFired    int
+	triggers       map[string][]chan struct{}
 }
+
+// fire is called by the commit tap (in the committing task, no scheduling point) and wakes the actors waiting for it.
+func (tw *tfWorld) fire(c Commit, prev map[string]Snap) {
+	var keys []string
+	switch {
+	case c.Type == TypeB && c.Kind == "destroy":
+		keys = append(keys, "out-destroyed:"+c.ID)
+	case c.Type == TypeB && c.Snap.Version == "1":
+		keys = append(keys, "out-created:"+c.ID)
+	case c.Type == TypeB && c.Snap.Phase == "tearingDown":
+		keys = append(keys, "out-td:"+c.ID)
+	case c.Type == TypeA && c.Kind == "put":
+		if c.Snap.Phase == "tearingDown" {
+			keys = append(keys, "in-td:"+c.ID)
+		}
+		if p, ok := prev[c.ID]; ok && hasFin(p.Fins, tfCtrlName) && !hasFin(c.Snap.Fins, tfCtrlName) {
+			keys = append(keys, "in-released:"+c.ID)
+		}
+	}
+	for _, k := range keys {
+		for _, ch := range tw.triggers[k] {
+			close(ch)
+		}
+		delete(tw.triggers, k)
+	}
+}
+
 
 func (tw *tfWorld) transformBody(in *A, outRes *B) error {
 	tw.transformCalls++
@@ -198,7 +231,11 @@ func (tw *tfWorld) registerControllers() error {
 			byID := func(in *A) state.ListOption {
 				return state.WithIDQuery(resource.IDRegexpMatch(regexp.MustCompile("^" + regexp.QuoteMeta(in.Metadata().ID()) + "$")))
 			}
-			h = cleanup.Combine(cleanup.RemoveOutputs[*C](lo), cleanup.HasNoOutputs[*B](byID))
+			if c.Cleanup == "combine-rev" {
+				h = cleanup.Combine(cleanup.HasNoOutputs[*B](byID), cleanup.RemoveOutputs[*C](lo))
+			} else {
+				h = cleanup.Combine(cleanup.RemoveOutputs[*C](lo), cleanup.HasNoOutputs[*B](byID))
+			}
 		}
 		if err := tw.RT.RegisterController(cleanup.NewController(cleanup.Settings[*A]{Name: cleanupCtrlName, Handler: h})); err != nil {
 			return err
@@ -210,6 +247,18 @@ func (tw *tfWorld) registerControllers() error {
 func (tw *tfWorld) doOp(ctx context.Context, op TFOp, actor string) {
 	if op.SleepMs > 0 {
 		simrt.Sleep(time.Duration(op.SleepMs) * time.Millisecond)
+	}
+	if op.After != "" {
+		ch := make(chan struct{})
+		if tw.triggers == nil {
+			tw.triggers = map[string][]chan struct{}{}
+		}
+		k := op.After + ":" + op.ID
+		tw.triggers[k] = append(tw.triggers[k], ch)
+		if simrt.Select("actor.after", false, simrt.Recv[struct{}](ch), simrt.Recv(ctx.Done())) != 0 {
+			return
+		}
+		tw.out.fault("reactive-actor:" + op.After + "->" + op.Kind)
 	}
 	simrt.Yield("actor.op")
 	st := tw.St
@@ -360,7 +409,7 @@ func tfCheckPrefixes(prop string, c *TFCase, log []Commit, out *Outcome) {
 	tdAt := map[string]int{}      // input id -> commit index at which it became tearing-down
 	dependents := func(id string) []string {
 		var out []string
-		if _, ok := B0[id]; ok && c.Cleanup == "combine" {
+		if _, ok := B0[id]; ok && (c.Cleanup == "combine" || c.Cleanup == "combine-rev") {
 			out = append(out, "output "+id)
 		}
 		for cid, ch := range C0 {
